@@ -676,3 +676,5 @@ func SortedVarNames(m map[string]*Term) []string {
 	sort.Strings(ns)
 	return ns
 }
+
+func ratOf(n int64) *big.Rat { return big.NewRat(n, 1) }
